@@ -1,6 +1,5 @@
 """C20 - client configuration is honoured exactly as documented, in both input syntaxes
 (spec/ClientConfig.tla, spec/ClientConfigGen.tla, harness/client/c20_test.go)."""
-import json
 import os
 from concurrent.futures import ThreadPoolExecutor
 
@@ -29,6 +28,20 @@ ALL = ["Transport", "BrowserSig", "CDNOriginHost", "CDNWsUrlPath", "RemoteHost",
 # options whose effects meet in one output (transport / websocket URL) or that the known defect lived in
 CORE = ["Transport", "BrowserSig", "CDNOriginHost", "CDNWsUrlPath", "RemoteHost", "NumConn", "KeepAlive"]
 CORE_T = CORE + ["StreamTimeout", "UDP"]
+# output columns in the order ClientConfigGen!ExpFields prints them
+EXP_FIELDS = ["outcome", "mode", "browser", "wsHost", "wsPath", "singleplex", "numConn", "keepAlive", "timeout",
+              "names", "enc", "unordered"]
+
+
+def decode_row(line):
+    """'<option values>|<expected outputs>' as printed by ClientConfigGen!Row -> {cfg: {...}, exp: {...}}"""
+    left, right = line.split("|")
+    cv, ev = left.split(","), right.split(",")
+    if len(cv) != len(ALL) or len(ev) != len(EXP_FIELDS):
+        raise lib.Inconclusive("unexpected row format from ClientConfigGen: %r" % line)
+    exp = dict(zip(EXP_FIELDS, ev))
+    exp["names"] = exp["names"].split("+")
+    return {"cfg": dict(zip(ALL, cv)), "exp": exp}
 
 
 def tla_set(xs):
@@ -80,12 +93,11 @@ def run(ctx):
         for g in gens:
             tag, r = g.result()
             n0 = len(rows)
-            for b in r.behaviours:
-                k = json.dumps(b["cfg"], sort_keys=True)
-                if k in seen:
+            for line in r.behaviours:
+                if line in seen:
                     continue
-                seen.add(k)
-                rows.append(b)
+                seen.add(line)
+                rows.append(decode_row(line))
             per_source[tag] = {"emitted": len(r.behaviours), "new_rows": len(rows) - n0, "tlc_distinct_states": r.distinct}
             ctx.log("gen %s: %d rows emitted, %d new" % (tag, len(r.behaviours), len(rows) - n0))
     if not rows:
@@ -96,17 +108,18 @@ def run(ctx):
     inp = lib.write_lines(os.path.join(ctx.work, "c20_rows.ndjson"), rows)
     # 3. replay into the real ParseConfig + ProcessRawConfig, both syntaxes
     variants = 2 if q else 3
-    res = lib.run_go(ctx, "client", "TestVerifC20Replay", env={"VERIF_IN": inp, "VERIF_C20_VARIANTS": variants})
-    lib.collect_go(ctx, res)
-    # 4. the oracle is alive: one falsified expectation (positive KeepAlive "disables" it) must be noticed
+    #    ... and, in the same test binary, the proof that the oracle is alive: on up to 50 valid rows with a positive
+    #    KeepAlive the expectation is falsified ("disabled"); the harness must notice every one of them
     probe = [r for r in rows if r["exp"]["keepAlive"] == "N" and r["exp"]["outcome"] == "ok"][:50]
     if not probe:
         raise lib.Inconclusive("no valid row with a positive KeepAlive was generated")
     pin = lib.write_lines(os.path.join(ctx.work, "c20_probe.ndjson"), probe)
-    pr = lib.run_go(ctx, "client", "TestVerifC20Replay", tag="corrupt_probe",
-                    env={"VERIF_IN": pin, "VERIF_C20_VARIANTS": 1, "VERIF_C20_CORRUPT": "keepAlive"})
-    if not any(v.get("key") == "KeepAlive:pos" for v in pr.get("violations", [])):
-        raise lib.Inconclusive("falsified expectation (KeepAlive) was not noticed by the harness: the oracle is blind")
+    res = lib.run_go(ctx, "client", "TestVerifC20Replay",
+                     env={"VERIF_IN": inp, "VERIF_C20_VARIANTS": variants, "VERIF_C20_PROBE": pin})
+    lib.collect_go(ctx, res)
+    if res["stats"].get("probe:noticed", 0) != len(probe) or res["stats"].get("probe:rows", 0) != len(probe):
+        raise lib.Inconclusive("falsified expectation (KeepAlive) was noticed on %s of %d probe rows: the oracle is blind"
+                               % (res["stats"].get("probe:noticed", 0), len(probe)))
     stats = res["stats"]
     cov = {
         "evaluations": res["evaluations"],
@@ -122,6 +135,7 @@ def run(ctx):
         "rows_replayed": len(rows),
         "rows_by_source": per_source,
         "rows_by_expected_outcome": {k[len("outcome:"):]: v for k, v in stats.items() if k.startswith("outcome:")},
+        "harness_stats": {k: v for k, v in stats.items() if not k.startswith(("undoc:", "outcome:"))},
         "undocumented_observed": {k[len("undoc:"):]: v for k, v in sorted(stats.items()) if k.startswith("undoc:")},
         "full_product_rows": 7 * 8 * 2 * 2 * 2 * 4 * 4 * 3 * 6 * 12 * 3 * 2 * 2 * 3 * 3 * 2 * 2 * 2,
         "states": sum(r["distinct"] for r in ctx.tlc_runs),
